@@ -396,10 +396,10 @@ func histCase(out *hx.Out, ci, keyed bool, ncols int, ops []op, queries []string
 	for _, q := range queries {
 		qS = append(qS, docSexp(q))
 	}
-	nontriv := strings.Contains(obs, "m=(") && strings.Contains(obs, "(1") // some query matched some row… refined below
-	nontriv = false
-	if i := strings.Index(obs, " dc="); i > 0 {
-		nontriv = strings.ContainsAny(obs[:i], "0123456789") && len(ops) >= 2
+	// non-trivial: at least two statements and some MATCH query returned a row
+	nontriv := false
+	if i, j := strings.Index(obs, " mw="), strings.Index(obs, " dc="); i > 0 && j > i {
+		nontriv = strings.ContainsAny(obs[i:j], "0123456789") && len(ops) >= 2
 	}
 	out.Case(hx.List("hist", b(ci), b(keyed), hx.List(opS...), hx.List(qS...)), obs, nontriv)
 	out.Stat("hist")
@@ -529,7 +529,9 @@ func run(a hx.RunArgs) error {
 		"hist: FULLTEXT tables (with / without primary key, 1-2 indexed columns, bin / ai_ci) under 1-9 INSERT/UPDATE/DELETE/key-changing statements " +
 		"(duplicate rows, duplicate-key failures, NULL columns, words around the 84-byte limit), then 3 MATCH queries (two SQL forms) and the four pseudo-index tables; " +
 		"non-trivial = at least 2 statements and some query matched a row"
-	rnd := hx.NewRand(a.Seed)
+	// hx.NewRand(s+1) is hx.NewRand(s) shifted by one draw: fork, and give every stream its own generator
+	root := hx.NewRand(a.Seed).Fork()
+	rndTok, rnd := root.Fork(), root.Fork()
 	e := eng.New("d")
 	ctx := e.Ctx()
 
@@ -561,12 +563,12 @@ func run(a hx.RunArgs) error {
 		tokCase(out, ctx, false, d)
 	}
 	for i := 0; i < nTok; i++ {
-		n := rnd.Intn(16)
+		n := rndTok.Intn(16)
 		var b strings.Builder
 		for k := 0; k < n; k++ {
-			b.WriteString(hx.Pick(rnd, tokAlpha))
+			b.WriteString(hx.Pick(rndTok, tokAlpha))
 		}
-		tokCase(out, ctx, rnd.Chance(1, 3), b.String())
+		tokCase(out, ctx, rndTok.Chance(1, 3), b.String())
 	}
 	for i := 0; i < nHist; i++ {
 		keyed := rnd.Chance(1, 2)
